@@ -119,7 +119,9 @@ def run (c : Case) : String :=
     | some fs, some rec =>
       -- the goroutine body runs the user function named by the (single) fault position
       let p := (fs.head?).bind (fun t => t.2.2.recovered)
-      let p' := if (op.drop 3).toString == "FromChannel" then p.map Err.unsubscription else p
+      -- FromChannel: the goroutine delivers the completion; the subscriber's finalizers
+      -- [close(done), the user's callback] run on it and the collected panic is re-raised
+      let p' := if (op.drop 3).toString == "FromChannel" then (runFinalizers [none, p]).2.head? else p
       s!"res {c.id} {renderGo (goBody rec p')}"
     | none, _ => s!"res {c.id} bad-faults"
     | _, none => s!"res {c.id} unsupported"
